@@ -6,6 +6,9 @@ expectation is computed from the op description (the graph) alone."""
 import asyncio
 import random
 
+from .. import env  # noqa: F401
+import mpyc.fingroups as _fg
+
 NAME = 'io'
 
 
@@ -61,6 +64,9 @@ def make_sectype(rt, td):
 def plain(v):
     if isinstance(v, list):
         return [plain(a) for a in v]
+    if isinstance(v, _fg.FiniteGroupElement):
+        from . import grpfam
+        return grpfam.plain_out(v)
     if v is None or isinstance(v, (int, float, str, bool)):
         return v
     if hasattr(v, 'value'):       # field element (signed representative for signed fields)
@@ -112,6 +118,13 @@ async def party_main(world, p, prog, case):
             y = rt.input(x, senders=s_arg)
             env[idx] = (T, y)
             results.append(None)
+        elif k == 'grp_elts':
+            # secure group elements made locally from public group elements (no communication)
+            from . import grpfam
+            group = grpfam.plain_group(grpfam.gkey(op['group']))
+            secgrp = rt.SecGrp(group)
+            env[idx] = (secgrp, [secgrp(grpfam.mk_plain(group, op['group'], rec)) for rec in op['recs']])
+            results.append(None)
         elif k == 'open':
             # open an earlier input result to everybody (checks 'opens to the sender's value')
             T, y = env[op['src']]
@@ -134,6 +147,10 @@ async def party_main(world, p, prog, case):
             else:
                 thr = None if th is None else rt.threshold + (th % (rt.threshold + 1))
                 r = await rt.output(x, receivers=r_arg, threshold=thr, raw=bool(op.get('raw')))
+            if prog['ops'][op['src']]['k'] == 'grp_elts' and (r is None or (isinstance(r, list) and all(v is None for v in r))):
+                # a non-receiver gets None(s); how many (the library returns one per underlying field share) is
+                # not part of any property
+                r = 'no-output'
             results.append(plain(r))
         else:
             raise ValueError(k)
@@ -211,6 +228,18 @@ def expect(prog, cfg, pid):
         elif k == 'input':
             structs[idx] = input_structure(op, m)
             out.append(None)
+        elif k == 'grp_elts':
+            from . import grpfam
+            group = grpfam.plain_group(grpfam.gkey(op['group']))
+            structs[idx] = [grpfam.plain_out(grpfam.mk_plain(group, op['group'], rec)) for rec in op['recs']]
+            out.append(None)
+        elif k == 'open' and prog['ops'][op['src']]['k'] == 'grp_elts':
+            out.append(list(structs[op['src']]))
+        elif k == 'output' and prog['ops'][op['src']]['k'] == 'grp_elts':
+            _, R = norm_set(op['receivers'], m)
+            y = structs[op['src']]
+            x = y[0] if op.get('pick') == 'first' else list(y)
+            out.append(x if pid in R else 'no-output')
         elif k == 'open':
             td = prog['ops'][op['src']]['type']
             flat = _flatten(structs[op['src']])
@@ -425,6 +454,30 @@ def gen_window(rng, cfg, tier='quick'):
                         'payload': rng.randrange(1 << 30)})
     ops.append({'k': 'quiesce', 'T': 20})
     ops.append({'k': 'open', 'src': 0})
+    return {'family': NAME, 'ops': ops, 'window_op': 2}
+
+
+def gen_window_grp(rng, cfg):
+    """Secure group elements output to a receiver subset inside the quiescence window."""
+    from . import grpfam
+    m = cfg.m
+    pool = [g for g, wgt in grpfam.GROUPS if g['kind'] in ('Sn', 'QR', 'SG', 'Cl') for _ in range(wgt)]
+    gd = dict(rng.choice(pool))
+    # S_n over a lifted field (n <= m, t > 0): quarantined construct of known finding to-bits-lifted-field
+    while gd['kind'] == 'Sn' and cfg.t > 0 and grpfam._next_prime(gd['n']) <= cfg.m:
+        gd = dict(rng.choice(pool))
+
+    def rec():
+        if gd['kind'] == 'Sn':
+            return {'perm': rng.sample(range(gd['n']), gd['n'])}
+        return {'pow': rng.randint(0, 12)}
+    n = rng.randint(1, 3)
+    ops = [{'k': 'grp_elts', 'group': gd, 'recs': [rec() for _ in range(n)]},
+           {'k': 'quiesce', 'T': 10},
+           {'k': 'output', 'src': 0, 'receivers': rand_set(rng, m, allow_none=False), 'threshold': None, 'raw': False,
+            'pick': rng.choice(('flat', 'first'))},
+           {'k': 'quiesce', 'T': 20},
+           {'k': 'open', 'src': 0}]
     return {'family': NAME, 'ops': ops, 'window_op': 2}
 
 
